@@ -9,13 +9,18 @@ import (
 // Plan generator of the `world` scenario (swarm style: sizes, key algorithms,
 // fault kinds, deviation kinds and workload mix are drawn per run).
 
-var cmdSegments = []string{"a", "ab", "abc", "b", "bc", "c", "foo", "foobar", "s", "\u017f", "\u03bb\u03bf\u03b3\u03bf\u03c2", "\u03bb\u03bf\u03b3\u03bf\u03c3", "\u00e9", "e\u0301", "i", "\u0131"}
+var cmdSegments = []string{"a", "ab", "abc", "b", "bc", "c", "foo", "foobar", "s", "\u017f", "\u03bb\u03bf\u03b3\u03bf\u03c2", "\u03bb\u03bf\u03b3\u03bf\u03c3", "\u00e9", "e\u0301", "i", "\u0131",
+	"x-1", "a_b", "v1.2", "%41", "007", "a.b", "~", "seg-that-is-seventy-characters-long-0123456789-0123456789-0123456789-012"}
 
 // cmdAlike: pairs of different lower-case segments that compare equal under Unicode case
 // folding or normalisation (long s / s, final sigma / sigma, NFC / NFD e-acute, dotless i / i).
 // They are different segments: neither command covers the other.
 var cmdAlike = map[string]string{"s": "\u017f", "\u017f": "s", "\u03bb\u03bf\u03b3\u03bf\u03c2": "\u03bb\u03bf\u03b3\u03bf\u03c3", "\u03bb\u03bf\u03b3\u03bf\u03c3": "\u03bb\u03bf\u03b3\u03bf\u03c2",
 	"\u00e9": "e\u0301", "e\u0301": "\u00e9", "i": "\u0131", "\u0131": "i"}
+
+// deepCommands lifts the depth limit of generated commands for the run being generated
+// (set and reset by genWorld; the generator is single-threaded per process).
+var deepCommands bool
 
 type wgen struct {
 	r     *Rand
@@ -94,7 +99,7 @@ func (g *wgen) other(not ...int) int {
 func (g *wgen) note(s string) { g.notes = append(g.notes, s) }
 
 func extendCmd(r *Rand, c string) string {
-	if len(cmdSegs(c)) >= 5 {
+	if n := len(cmdSegs(c)); n >= 5 && !(deepCommands && n < 40) {
 		return c
 	}
 	s := Pick(r, cmdSegments)
@@ -563,6 +568,11 @@ func (g *wgen) buildChain(n int, tcSec int64, args []KV) *chain {
 	for i := r.Intn(3); i > 0; i-- {
 		cmd = extendCmd(r, cmd)
 	}
+	if deepCommands {
+		for i := r.Range(6, 30); i > 0; i-- {
+			cmd = extendCmd(r, cmd)
+		}
+	}
 	polBudget := r.Range(0, 4)
 	for k := 0; k < n; k++ {
 		if k > 0 && r.Chance(0.4) {
@@ -582,7 +592,7 @@ func (g *wgen) buildChain(n int, tcSec int64, args []KV) *chain {
 		if r.Chance(0.15) {
 			d.SubMilli = int64(r.Range(1, 999))
 		}
-		d.NonceLen = []int{0, 0, 0, 12, 16, 32}[r.Intn(6)]
+		d.NonceLen = []int{0, 0, 0, 12, 16, 32, 64, 255, 256}[r.Intn(9)]
 		d.Meta = genMeta(r)
 		c.dlgs = append(c.dlgs, d)
 	}
@@ -599,7 +609,7 @@ func (g *wgen) buildChain(n int, tcSec int64, args []KV) *chain {
 		g.bounds(&none, &c.inv.Exp, tcSec)
 	}
 	c.inv.Iat = []string{"", "", "none", "past", "future", "zero", "epoch", "y2300"}[r.Intn(8)]
-	c.inv.NonceLen = []int{0, 0, 0, 12, 16, 32}[r.Intn(6)]
+	c.inv.NonceLen = []int{0, 0, 0, 12, 16, 32, 64, 255, 256, 70000}[r.Intn(10)]
 	c.inv.Meta = genMeta(r)
 	c.inv.Cause = r.Chance(0.2)
 	return c
@@ -722,7 +732,13 @@ func genWorld(r *Rand, cfg GenCfg) Plan {
 	}
 
 	// --- main chain
+	deepCommands = r.Chance(0.04)
+	defer func() { deepCommands = false }()
 	nLinks := []int{1, 1, 2, 2, 3, 3, 4, 5, 6, 8, 0}[r.Intn(11)]
+	if r.Chance(0.03) {
+		// beyond any small fixed capacity
+		nLinks = []int{9, 12, 16, 17, 33, 65}[r.Intn(6)]
+	}
 	args := genArgs(r)
 	c := g.buildChain(nLinks, tcSec, args)
 	if r.Chance(0.05) {
